@@ -249,7 +249,8 @@ func NewUpstream(addr string, opt Opt) (_ Upstream, err error) {
 			quicConfig := newDefaultClientQuicConfig()
 			quicConfig.MaxIdleTimeout = idleConnTimeout
 
-			addonCloser = quicTransport
+			// The transport does not close a socket it did not create.
+			addonCloser = multiCloser{quicTransport, conn}
 			t = &http3.RoundTripper{
 				TLSClientConfig: opt.TLSConfig,
 				QuicConfig:      quicConfig,
@@ -355,13 +356,41 @@ func NewUpstream(addr string, opt Opt) (_ Upstream, err error) {
 			}
 			return c, nil
 		}
-		return transport.NewQuicTransport(transport.QuicTransportOpts{
+		qt := transport.NewQuicTransport(transport.QuicTransportOpts{
 			DialContext: dialQuicConn,
 			Logger:      logger,
-		}), nil
+		})
+		// The quic.Transport and its socket (which the transport does not
+		// close because it did not create it) live as long as the upstream.
+		return &upstreamWithCloser{Upstream: qt, closer: multiCloser{t, uc}}, nil
 	default:
 		return nil, fmt.Errorf("unsupported protocol [%s]", addrURL.Scheme)
 	}
+}
+
+// multiCloser closes all its members.
+type multiCloser []io.Closer
+
+func (cs multiCloser) Close() error {
+	var errs []error
+	for _, c := range cs {
+		if err := c.Close(); err != nil {
+			errs = append(errs, err)
+		}
+	}
+	return errors.Join(errs...)
+}
+
+// upstreamWithCloser closes closer after the upstream.
+type upstreamWithCloser struct {
+	Upstream
+	closer io.Closer
+}
+
+func (u *upstreamWithCloser) Close() error {
+	err := u.Upstream.Close()
+	u.closer.Close()
+	return err
 }
 
 type udpWithFallback struct {
